@@ -307,6 +307,61 @@ var c14Faults = []c14Fault{
 		}
 		return recs
 	}},
+	{"no-dates-or-no-events-at-all", func(r *fw.Rand, recs []*gen.Spec) []*gen.Spec {
+		// nothing in the file says when anybody lived (what is estimated from
+		// relatives has to be estimated for everybody)
+		events := map[string]bool{"BIRT": true, "BAPM": true, "CHR": true, "DEAT": true, "BURI": true, "MARR": true, "DIV": true, "RESI": true, "EVEN": true}
+		stripEvents := r.Bool()
+		var strip func(s *gen.Spec)
+		strip = func(s *gen.Spec) {
+			var ks []*gen.Spec
+			for _, k := range s.Kids {
+				if k.Tag == "DATE" || (stripEvents && events[k.Tag]) {
+					continue
+				}
+				strip(k)
+				ks = append(ks, k)
+			}
+			s.Kids = ks
+		}
+		for _, s := range recs {
+			if s.Tag == "INDI" || s.Tag == "FAM" {
+				strip(s)
+			}
+		}
+		return recs
+	}},
+	{"several-marriages-with-unresolvable-partners", func(r *fw.Rand, recs []*gen.Spec) []*gen.Spec {
+		inds := c14Records(recs, "INDI")
+		var p *gen.Spec
+		if len(inds) > 0 {
+			p = inds[r.Intn(len(inds))]
+		} else {
+			p = &gen.Spec{Tag: "INDI", Pointer: "MM0", Kids: []*gen.Spec{{Tag: "NAME", Value: "Much /Married/"}, {Tag: "SEX", Value: "M"}}}
+			recs = c14InsertBeforeTRLR(recs, p)
+		}
+		me := "@" + p.Pointer + "@"
+		other := &gen.Spec{Tag: "INDI", Pointer: "MM9", Kids: []*gen.Spec{{Tag: "NAME", Value: "Real /Partner/"}, {Tag: "SEX", Value: "F"}, {Tag: "FAMS", Value: "@MF4@"}}}
+		for k, v := range []string{"@NOPE1@", "@MF1@", "", "@MM9@", "@NOPE2@"} {
+			role, mine := "WIFE", "HUSB"
+			if k%2 == 1 && r.Bool() {
+				role, mine = "HUSB", "WIFE"
+			}
+			fp := fmt.Sprintf("MF%d", k+1)
+			recs = c14InsertBeforeTRLR(recs, &gen.Spec{Tag: "FAM", Pointer: fp, Kids: []*gen.Spec{{Tag: mine, Value: me}, {Tag: role, Value: v}, {Tag: "MARR", Kids: []*gen.Spec{{Tag: "DATE", Value: fmt.Sprintf("%d", 1850+k)}}}}})
+			p.Kids = append(p.Kids, &gen.Spec{Tag: "FAMS", Value: "@" + fp + "@"})
+		}
+		return c14InsertBeforeTRLR(recs, other)
+	}},
+	{"cycle-of-people-without-any-date", func(r *fw.Rand, recs []*gen.Spec) []*gen.Spec {
+		return c14InsertBeforeTRLR(recs,
+			&gen.Spec{Tag: "INDI", Pointer: "DC1", Kids: []*gen.Spec{{Tag: "NAME", Value: "Dateless /One/"}, {Tag: "SEX", Value: "M"}, {Tag: "FAMS", Value: "@DF1@"}, {Tag: "FAMC", Value: "@DF2@"}}},
+			&gen.Spec{Tag: "INDI", Pointer: "DC2", Kids: []*gen.Spec{{Tag: "NAME", Value: "Dateless /Two/"}, {Tag: "SEX", Value: "F"}, {Tag: "FAMS", Value: "@DF2@"}, {Tag: "FAMC", Value: "@DF1@"}}},
+			&gen.Spec{Tag: "INDI", Pointer: "DC3", Kids: []*gen.Spec{{Tag: "NAME", Value: "Own /Child/"}, {Tag: "FAMS", Value: "@DF3@"}, {Tag: "FAMC", Value: "@DF3@"}}},
+			&gen.Spec{Tag: "FAM", Pointer: "DF1", Kids: []*gen.Spec{{Tag: "HUSB", Value: "@DC1@"}, {Tag: "CHIL", Value: "@DC2@"}}},
+			&gen.Spec{Tag: "FAM", Pointer: "DF2", Kids: []*gen.Spec{{Tag: "WIFE", Value: "@DC2@"}, {Tag: "CHIL", Value: "@DC1@"}}},
+			&gen.Spec{Tag: "FAM", Pointer: "DF3", Kids: []*gen.Spec{{Tag: "HUSB", Value: "@DC3@"}, {Tag: "WIFE", Value: "@DC3@"}, {Tag: "CHIL", Value: "@DC3@"}}})
+	}},
 }
 
 // all fault subsets of size <= 3 in a fixed order
@@ -359,7 +414,7 @@ func init() {
 		Cases:    func(tier string, seed uint64) int { return len(c14CaseList(tier, seed)) },
 		Run:      c14Run,
 		Batch:    func(tier string, n int) int { return 8 },
-		Rule: "generated family graphs (0..15 people) perturbed by every subset of up to 3 of " + fmt.Sprint(len(c14Faults)) + " structural fault classes (dangling / wrong-kind / empty / malformed references, missing or odd names and surnames, self and cyclic relationships, duplicate pointers, empty families, sources without title or with path-like pointers, every date validity class, SEX anomalies, odd places, no individuals, living people, events without details); only files the decoder accepts count. " +
+		Rule: "generated family graphs (0..15 people) perturbed by every subset of up to 3 of " + fmt.Sprint(len(c14Faults)) + " structural fault classes (dangling / wrong-kind / empty / malformed references, missing or odd names and surnames, self and cyclic relationships, duplicate pointers, empty families, sources without title or with path-like pointers, every date validity class, SEX anomalies, odd places, no individuals, living people, events without details, no dates or events anywhere, several marriages with unresolvable partners, cycles of people without any date); only files the decoder accepts count. " +
 			"monitors: exit status + stderr of the real gedcom binary (warnings; publish in each -living mode with rotating page-group subsets and -jobs 1/4; diff against itself and against a clean twin with each -show/-sort; query with the documented examples in all formats) under a watchdog with deadlock analysis, plus an in-process twin under recover() for attribution (warnings, page rendering via Publisher.Files, Compare + DiffPage, queries). non-trivial = accepted file with at least one fault; distinct by file text",
 		Floors: func(a *fw.Agg, tier string) []string {
 			var f []string
